@@ -166,12 +166,24 @@ class Meta:
             "lower": lambda lab, mn, op: "%s %s %s\n" % (lab, mn.lower(), op),
             "mixed": lambda lab, mn, op: "%s %s %s\n" % (lab, mn[0].upper() + mn[1:].lower(), op),
             "comment-lines": None,
+            "comment-numbered": "numbered",
+            "comment-every-other": "alternate",
         }
         for vn, fn in variants.items():
             if fn is None:
                 new = []
                 for l in lines:
                     new += ["; a comment line\n", l, "\n"]
+            elif fn in ("numbered", "alternate"):
+                # a DIFFERENT comment on every statement / a comment on every other statement only (statements that read the
+                # same must not be told apart, or confused, by their comments)
+                new = []
+                for k, l in enumerate(lines):
+                    lab, mn, op = fields(l)
+                    if "FCC" in mn or (fn == "alternate" and k % 2):
+                        new.append(l)
+                    else:
+                        new.append("%s %s %s ; note %d\n" % (lab, mn, op, k))
             else:
                 new = [fn(*fields(l)) for l in lines]
             v = self._view(assemble(env, new))
